@@ -74,7 +74,7 @@ EvImport ==
   /\ LET f == FrameOf(E.f)
          id == E.f.id
          nul == f.topic \in NulTopics
-     IN /\ Judge((IF E.ok = nul THEN {"C05", "C20"} ELSE {}) \cup HttpOk(E.status, E.ok, 200))
+     IN /\ Judge(ImportVerdict(g, id, f, E.ok) \cup HttpOk(E.status, E.ok, 200))
         /\ IF E.ok
            THEN /\ g' = ReEvict([g EXCEPT !.acc = Put(@, id, f), !.removed = @ \ {id}, !.gone = @ \ {id}])
                 /\ imported' = imported \cup {id}
